@@ -61,7 +61,7 @@ def run_shard(spec):
         prog, meta, r = make_prog(spec, i)
         runner = conc.ProgramRunner(prog)
         try:
-            pol = ("sweep",) if spec["tier"] == "quick" else ("sweep", "two_delay", "random")
+            pol = ("sweep", "boundary") if spec["tier"] == "quick" else ("sweep", "boundary", "two_delay", "random")
             res = conc.explore(prog, runner, r, spec["tier"],
                                {"cls": prog["cls"], "stratum": spec["stratum"], "topology": meta["topology"]},
                                policies=pol)
